@@ -157,6 +157,9 @@ class Interp:
         self.tuple_arity = {}
         self.summaries = {}
         self.exact_minmax = False
+        self.record_early = True
+        self.early = False
+        self.early_yields, self.early_calls, self.early_cops, self.early_subs = [], [], [], []
         self._forks = []
         self.coarsened = []
         self.containers = set()
@@ -442,7 +445,7 @@ class Interp:
         idx = self.ev(node.slice, st)
         if bs is not None:
             if self.record:
-                self.subs.append((node, bs, idx, st.copy()))
+                (self.early_subs if self.early else self.subs).append((node, bs, idx, st.copy()))
             if bs + "[]" in self.summaries and isinstance(idx, tuple):
                 return self.summarised_call(bs + "[]", node, list(idx), st)
             if isinstance(idx, Lin) and bs.startswith("self."):
@@ -497,13 +500,13 @@ class Interp:
             if f.id in self.summaries:
                 args = [self.ev(a, st) for a in node.args]
                 if self.record and f.id in self.record_calls:
-                    self.calls.append(CallRec(node, f.id, self.cidx.get((node.lineno, node.col_offset), -1),
+                    (self.early_calls if self.early else self.calls).append(CallRec(node, f.id, self.cidx.get((node.lineno, node.col_offset), -1),
                                               args, {}, st.copy()))
                 return self.summarised_call(f.id, node, args, st)
             args = [self.ev(a, st) for a in node.args]
             kwargs = {k.arg: self.ev(k.value, st) for k in node.keywords if k.arg}
             if self.record and f.id in self.record_calls:
-                self.calls.append(CallRec(node, f.id, self.cidx.get((node.lineno, node.col_offset), -1),
+                (self.early_calls if self.early else self.calls).append(CallRec(node, f.id, self.cidx.get((node.lineno, node.col_offset), -1),
                                           args, kwargs, st.copy()))
             return self.opaque(node, st)
         if isinstance(f, ast.Attribute):
@@ -541,7 +544,7 @@ class Interp:
                 self.set_loc(t, comp, st)
             trk = st.enum_single(f"$trk({c})")
             if self.record:
-                self.cops.append((node, c, "push", comps, st.copy()))
+                (self.early_cops if self.early else self.cops).append((node, c, "push", comps, st.copy()))
             st.enum_set(f"$trk({c})", {"0": "P", "W": "0"}.get(trk, "ERR"))
             return NONE
         if op in ("pop", "remove", "discard"):
@@ -571,7 +574,7 @@ class Interp:
                 st.forget_all(t)
             trk = st.enum_single(f"$trk({c})")
             if self.record:
-                self.cops.append((node, c, "pop", arg, st.copy()))
+                (self.early_cops if self.early else self.cops).append((node, c, "pop", arg, st.copy()))
             st.enum_set(f"$trk({c})", {"0": "X"}.get(trk, "ERR"))
             return NONE
         for a in node.args:
@@ -966,7 +969,7 @@ class Interp:
                 else:
                     st.forget_all(f"seed({c})")
                 if self.record:
-                    self.cops.append((s, c, "init", elts, st.copy()))
+                    (self.early_cops if self.early else self.cops).append((s, c, "init", elts, st.copy()))
                 return [st], [], []
             v = self.ev(s.value, st)
             if st.bottom:
@@ -1004,7 +1007,8 @@ class Interp:
                     e = e.func
                 if isinstance(e, ast.Name):
                     name = e.id
-                self.outcomes.append(Outcome("raise", name, st, s))
+                if not self.early:
+                    self.outcomes.append(Outcome("raise", name, st, s))
             return [], [], []
         if isinstance(s, ast.Return) and self.exact_minmax and self.record and \
                 isinstance(s.value, (ast.Compare, ast.BoolOp)):
@@ -1040,7 +1044,7 @@ class Interp:
 
     def loop(self, s, states):
         rec = self.record
-        self.record = False
+        was_early = self.early
         entry = self.normalize([x.copy() for x in states])
         # restart from the invariant found the last time this loop was solved
         # (sound: we join with the new entry and keep iterating upwards)
@@ -1049,6 +1053,12 @@ class Interp:
         try:
             for it in range(60):
                 self.loop_iters += 1
+                # the first ascending iterations are recorded separately ("early" records): local
+                # obligations are also checked on them, for REFUTED verdicts only, so that a
+                # violation cannot hide behind the invariant it pollutes
+                early_here = rec and self.record_early and it < 3 and memo is None
+                self.record = early_here
+                self.early = was_early or early_here
                 body_in = self.loop_enter(s, head)
                 outs = []
                 if body_in:
@@ -1066,6 +1076,7 @@ class Interp:
                 raise Unsupported(f"no fixpoint for loop at line {s.lineno}")
         finally:
             self.record = rec
+            self.early = was_early
         self.loop_memo[id(s)] = [x.copy() for x in head]
         # final pass with recording
         body_in = self.loop_enter(s, head)
@@ -1118,8 +1129,9 @@ class Interp:
         args = [self.ev(a, st) for a in call.args] if isinstance(call, ast.Call) else []
         kwargs = {k.arg: self.ev(k.value, st) for k in call.keywords} if isinstance(call, ast.Call) else {}
         rec = YieldRec(y, kind, ordinal, args, kwargs, st.copy())
+        rec.early = self.early
         if self.record:
-            self.yields.append(rec)
+            (self.early_yields if self.early else self.yields).append(rec)
         # ---- ghosts
         st.assign("n@prev", Lin.sym("self._n"))
         st.assign("r@prev", Lin.sym("self._r"))
